@@ -4,10 +4,11 @@
 (never a default).
 -/
 import NrfModel.Drv.Net
+import NrfModel.Drv.Rf
 
 open Nrf.Drv
 
-def allHandlers : List (String × Handler) := netHandlers
+def allHandlers : List (String × Handler) := netHandlers ++ rfHandlers
 
 def dispatch (line : String) : String :=
   match (line.splitOn " ").filter (· ≠ "") with
